@@ -33,6 +33,7 @@ type cfgT struct {
 	trusted bool // path flag: a trust predicate was taken on its positive edge
 	closing bool // path flag: a goroutine that must close the connection was spawned
 	armed   bool // path flag: the handshake timer was (re-)armed during this run
+	moved   bool // path flag: the handshake state was stored during this run
 }
 
 type akind uint8
@@ -750,6 +751,7 @@ func (f *fsm) storeField(fn *ssa.Function, st *ssa.Store, fld *types.Var, val av
 			return []*tuple{t}
 		}
 		from := t.cfg.state
+		t.cfg.moved = true
 		if from != to {
 			origin := fn
 			if val.origin != nil {
